@@ -366,4 +366,6 @@ def _stream_lazy(prog):
 def run(prog: Program, tier: str) -> List[RuleResult]:
     from . import c13
 
-    return [strong_ref(prog), weak_wrapper(prog), c14.sg_coherence(prog), c14.idkey(prog), c14.sg_purge_directions(prog), c13.sg_sweep(prog), _stream_lazy(prog)]
+    return [strong_ref(prog), weak_wrapper(prog), c14.sg_coherence(prog), c14.idkey(prog), c14.sg_purge_directions(prog), c13.sg_sweep(prog), _stream_lazy(prog),
+            # an edge whose payload was overwritten leaves its pair in the relation index for good
+            c14.rel_edges(prog)]
